@@ -214,6 +214,7 @@ var onNewWorld func(*World)
 func NewWorld(t *testing.T, cfg WorldCfg) *World {
 	w := &World{T: t, Cfg: cfg, Stats: map[string]int{}, start: time.Now()}
 	w.Env = NewEnv()
+	w.Env.Anomaly = func(prop, key, msg string) { w.Violate(prop, key, "%s", msg) }
 	w.Tap = NewTap()
 	w.Tap.SeqSrc = &w.Env.Seq
 	w.Wire = NewWireMonitor(w)
